@@ -1,5 +1,5 @@
 """C01 - applied writes survive crash and restart: the ordering / guard facts its mechanisms name."""
-from . import flushspec, c19, schemaspec, walspec
+from . import flushspec, c19, prunespec, schemaspec, walspec
 from ._util import pick
 
 FILTERS = []
@@ -9,7 +9,9 @@ def obligations(ctx):
     out = []
     out += pick(flushspec.insert_path(ctx), [("B-1", "wal-before-memtable")])
     ft = flushspec.flush_task(ctx)
-    out += pick(ft, [("B-2", "wal-prune-guard"), ("B-3", "wal-prune-cutoff")])
+    out += pick(ft, [("B-2", "wal-prune-guard")])
+    # B-3 (which WAL logs the cut-off removes) is decided on the composed write path, not pinned to one formula
+    out += pick(prunespec.prune_safety(ctx), [("B-3", "wal-prune-safe"), ("B-3c", "wal-recover-once")])
     cl = {r.id: r for r in c19.obligations(ctx)}
     r = cl["B-3"]
     r.id = "B-3b"
